@@ -66,3 +66,53 @@ add('c04-energy-operand', S, "        energy_db = _energy_difference(X, X-proto_
 add('c04-energy-flip', S, "        if energy_db > energy_thresh:", "        if energy_db < energy_thresh:", 'breaking', ['C04'], 'C04.R6')
 add('c04-lower-from-stale', S, "        lower = interp_envelope(proto_imf, mode='lower',\n                                **envelope_opts, extrema_opts=extrema_opts)\n\n        # If upper",
     "        lower = interp_envelope(X, mode='lower',\n                                **envelope_opts, extrema_opts=extrema_opts)\n\n        # If upper", 'breaking', ['C04'], 'C04.R1')
+
+CY = 'emd/cycles.py'
+CS = 'emd/_cycles_support.py'
+SP = 'emd/spectra.py'
+SU = 'emd/support.py'
+LG = 'emd/logger.py'
+UT = 'emd/utils.py'
+
+# ---------------------------------------------------------------- C07
+add('c07-mask-added-back', S, "    imfs = np.concatenate(imfs, axis=1) - m\n", "    imfs = np.concatenate(imfs, axis=1) + m\n", 'breaking', ['C07'], 'C07.R1')
+add('c07-phase-endpoint', S, "    phases = np.linspace(0, (2*np.pi), nphases+1)[:nphases]", "    phases = np.linspace(0, (2*np.pi), nphases)",
+    'breaking', ['C07'], 'C07.R2')
+add('c07-phase-endpoint-false-benign', S, "    phases = np.linspace(0, (2*np.pi), nphases+1)[:nphases]",
+    "    phases = np.linspace(0, (2*np.pi), nphases, endpoint=False)", 'benign', ['C07'])
+add('c07-unordered', S, "        res = p.starmap(my_get_next_imf, args)", "        res = list(p.imap_unordered(my_get_next_imf, [a[0] for a in args]))",
+    'breaking', ['C07'], 'C07')
+add('c07-ladder-exponent', S, "mask_freqs = np.array([z/mask_step_factor**ii for ii in range(max_imfs)])",
+    "mask_freqs = np.array([z/mask_step_factor**(ii+1) for ii in range(max_imfs)])", 'breaking', ['C07'], 'C07.R2')
+add('c07-ladder-linear', S, "mask_freqs = np.array([z/mask_step_factor**ii for ii in range(max_imfs)])",
+    "mask_freqs = np.array([z/(mask_step_factor*(ii+1)) for ii in range(max_imfs)])", 'breaking', ['C07'], 'C07.R2')
+add('c07-ratio-imf-uses-input', S, "            sd = imf[:, -1].std()", "            sd = X.std()", 'breaking', ['C07'], 'C07.R4')
+add('c07-abs-uses-std', S, "    elif mask_amp_mode == 'abs':\n        sd = 1", "    elif mask_amp_mode == 'abs':\n        sd = X.std()", 'breaking', ['C07'], 'C07.R4')
+add('c07-mean-before-remove', S, "    return imfs.mean(axis=1)[:, np.newaxis], np.any(continue_flags)",
+    "    return imfs.sum(axis=1)[:, np.newaxis], np.any(continue_flags)", 'breaking', ['C07'], 'C07.R1')
+add('c07-flag-all', S, "    return imfs.mean(axis=1)[:, np.newaxis], np.any(continue_flags)",
+    "    return imfs.mean(axis=1)[:, np.newaxis], np.all(continue_flags)", 'breaking', ['C07'], 'C07.R1')
+add('c07-mask-time-offset', S, "    t = np.repeat(np.arange(X.shape[0])[:, np.newaxis], nphases, axis=1)",
+    "    t = np.repeat(np.arange(1, X.shape[0]+1)[:, np.newaxis], nphases, axis=1)", 'breaking', ['C07'], 'C07.R1')
+add('c07-wrong-layer-freq', S, "next_imf, continue_sift = get_next_imf_mask(proto_imf, mask_freqs[imf_layer], amp,",
+    "next_imf, continue_sift = get_next_imf_mask(proto_imf, mask_freqs[0], amp,", 'breaking', ['C07'], 'C07.R2')
+
+# ---------------------------------------------------------------- C15
+add('c15-swap-ufuncs', CY, "        elif comp[:2] == '<=':\n            func = np.less_equal", "        elif comp[:2] == '<=':\n            func = np.less",
+    'breaking', ['C15'], 'C15.R1')
+add('c15-onechar-first', CY, "        if comp[:2] == '==':\n            func = np.equal\n        elif comp[:2] == '!=':",
+    "        if comp[0] == '<':\n            func = np.less\n        elif comp[:2] == '==':\n            func = np.equal\n        elif comp[:2] == '!=':",
+    'breaking', ['C15'], 'C15.R1')
+add('c15-lstrip-minus', CY, "        val = float(comp.lstrip('!=<>'))", "        val = float(comp.lstrip('!=<>-'))", 'breaking', ['C15'], 'C15.R1')
+add('c15-any-conditions', CY, "            return np.all(out, axis=1)", "            return np.any(out, axis=1)", 'breaking', ['C15'], 'C15.R2')
+add('c15-args-swapped', CY, "            out[:, idx] = func(self.metrics[name], val)", "            out[:, idx] = func(val, self.metrics[name])",
+    'breaking', ['C15'], 'C15.R2')
+add('c15-chain-gap-ge1', CY, "        elif dchain_inds[ii] > 1:", "        elif dchain_inds[ii] >= 1:", 'breaking', ['C15'], 'C15.R3')
+add('c15-chain-first-zero', CY, "    dchain_inds = np.r_[1, np.diff(chain_inds)]", "    dchain_inds = np.r_[2, np.diff(chain_inds)]", 'breaking', ['C15'], 'C15.R3')
+add('c15-subset-zero-fill', CY, "        if valids[ii] == 0:\n            subset_vect[ii] = -1", "        if valids[ii] == 0:\n            subset_vect[ii] = 0",
+    'breaking', ['C15'], 'C15.R3')
+add('c15-unsafe-store', CY, "    def _safe_add_metric(self, name, vals):\n        if len(vals) != self.ncycles:\n            raise ValueError\n",
+    "    def _safe_add_metric(self, name, vals):\n", 'breaking', ['C15'], 'C15.R4')
+add('c15-cache-good-only', CY, "        self.cycle_vect = get_cycle_vector(self.phase, return_good=False,", "        self.cycle_vect = get_cycle_vector(self.phase, return_good=True,",
+    'breaking', ['C15'], 'C15.R5')
+add('c15-cache-stop', CS, "    stops = np.r_[stops, len(cycle_vect)]", "    stops = np.r_[stops, len(cycle_vect) - 1]", 'breaking', ['C15'], 'C15.R5')
